@@ -43,14 +43,24 @@ class _LoadAndSave:
         self._load = load
 
     def __enter__(self):
-        self._collection._thread_lock.__enter__()
+        # Another thread may bind the collection to a different resource (and
+        # hence to a different lock) while this thread waits for the lock. The
+        # lock that ends up held must be the collection's current one, because
+        # that is the one released in __exit__; holding it also keeps the
+        # binding stable for the duration of the operation.
+        while True:
+            lock = self._collection._thread_lock
+            lock.__enter__()
+            if lock is self._collection._thread_lock:
+                break
+            lock.__exit__(None, None, None)
         try:
             if self._load:
                 self._collection._load()
         except BaseException:
             # __exit__ is not called if __enter__ raises, so the lock must
             # be released here.
-            self._collection._thread_lock.__exit__(None, None, None)
+            lock.__exit__(None, None, None)
             raise
 
     def __exit__(self, exc_type, exc_val, exc_tb):
